@@ -197,6 +197,133 @@ def descr_results(pm, canon, results, rnd, budget):
         tr.remove_descriptor('verif_ch')
 
 
+def reachable(root):
+    """{id: (path, object)} of every mutable object reachable from a container (declared members and other
+    attributes; lists, dicts, lxml elements).  Not followed, shared by design: state.descriptor_container and the
+    element the observable `node` points to."""
+    from lxml import etree
+    out, todo = {}, [('', root)]
+    while todo:
+        p, v = todo.pop()
+        if v is None or isinstance(v, (str, bytes, int, float, bool, Decimal, enum.Enum, etree.QName, type)):
+            continue
+        if isinstance(v, tuple):
+            todo += [(f'{p}[{i}]', x) for i, x in enumerate(v)]
+            continue
+        struct = hasattr(v, 'sorted_container_properties')
+        observable = type(v).__name__ == '_ObservableValue'
+        if not (struct or observable or isinstance(v, (list, dict, set, etree._Element))):  # noqa: SLF001
+            continue
+        if id(v) in out:
+            continue
+        out[id(v)] = (p, v)
+        if struct:
+            names = {getattr(prop, '_local_var_name', None): n for n, prop in v.sorted_container_properties()}
+            todo += [(f'{p}.{names.get(k, k)}', x) for k, x in v.__dict__.items() if k != 'descriptor_container']
+        elif observable:
+            todo.append((p + '._observers', v._observers))  # noqa: SLF001
+        elif isinstance(v, (list, set)):
+            todo += [(f'{p}[{i}]', x) for i, x in enumerate(v)]
+        elif isinstance(v, dict):
+            todo += [(f'{p}[{k if isinstance(k, str) else type(k).__name__}]', x) for k, x in v.items()]
+    return out
+
+
+def stale_entity_results(pm, canon, results, rnd, budget, handles):
+    """entities that are OLDER than the mdib and then refreshed with update(): transactions add / change / remove
+    context states and change single states after the entity was read; after entity.update()
+      (a) no object reachable from the entity is an object reachable from the mdib tables (identity, any depth),
+      (b) nested writes, top-level writes and in-place list operations on the refreshed entity leave the MDIB unchanged."""
+    pm_types = pm.data_model.pm_types
+
+    def snap_key():
+        s = mdibrun.snapshot(pm, canon)
+        return json.dumps({k: s[k] for k in ('ver', 'descrs', 'states', 'cstates')}, sort_keys=True)
+
+    def label(c):
+        return f'{type(c).__name__}({getattr(c, "Handle", None) or getattr(c, "DescriptorHandle", None)})'
+
+    ctx_descrs = [d.Handle for d in pm.descriptions.objects if d.is_context_descriptor
+                  and d.NODETYPE.localname in ('PatientContextDescriptor', 'LocationContextDescriptor')]
+    singles = [h for h in handles if pm.states.descriptor_handle.get_one(h, allow_none=True) is not None
+               and tx_name(pm.states.descriptor_handle.get_one(h)) is not None][:3]
+    # states that exist when the entities are read: one that will be changed, one that will be removed
+    doomed, kept = {}, {}
+    for h in ctx_descrs:
+        with pm.context_state_transaction() as tr:
+            doomed[h] = tr.mk_context_state(h, f'verif_doomed_{h}').Handle
+            kept[h] = tr.mk_context_state(h, f'verif_kept_{h}').Handle
+    old = {h: pm.entities.by_handle(h) for h in ctx_descrs + singles}           # ---- the entities are read NOW
+    known = {h: set(old[h].states) for h in ctx_descrs}
+    # ---- the mdib moves on
+    added = {}
+    for h in ctx_descrs:
+        with pm.context_state_transaction() as tr:                               # new state + changed state
+            st = tr.mk_context_state(h, f'verif_new_{h}')
+            st.Identification = [pm_types.InstanceIdentifier('urn:verif', extension_string='new')]
+            st.Validator = [pm_types.InstanceIdentifier('urn:verif', extension_string='validator')]
+            added[h] = st.Handle
+            ch = tr.get_context_state(kept[h])
+            ch.Identification = [pm_types.InstanceIdentifier('urn:verif', extension_string='changed')]
+        remover = pm.entities.by_handle(h)                                       # removed state
+        remover.states.pop(doomed[h])
+        with pm.context_state_transaction() as tr:
+            tr.write_entity(remover, [doomed[h]])
+    for h in singles:
+        with getattr(pm, tx_name(pm.states.descriptor_handle.get_one(h)))() as tr:
+            mdibrun.set_payload(tr.get_state(h), 17, pm_types)
+    # ---- refresh
+    for h, e in old.items():
+        kind = 'multi-state' if e.is_multi_state else 'single-state'
+        getter = f'entity.update of a {kind} entity read before later commits'
+        try:
+            e.update()
+        except Exception:  # noqa: BLE001
+            results.append({'getter': getter, 'handle': h, 'path': ['update()'], 'error': traceback.format_exc()[-300:]})
+            continue
+        if e.is_multi_state and (doomed[h] in e.states or added[h] not in e.states):
+            results.append({'getter': getter, 'handle': h, 'path': [f'states = {sorted(e.states)}'], 'wrote': True,
+                            'error': f'the refreshed entity does not follow the mdib (new {added[h]}, removed {doomed[h]})'})
+        parts = [('descriptor', e.descriptor)]
+        parts += [(f'states[{k}]' + (' (new since the entity was read)' if k not in known[h] else ''), v)
+                  for k, v in e.states.items()] if e.is_multi_state else [('state', e.state)]
+        # (a) identity at any depth
+        inside = {}
+        for table in (pm.descriptions, pm.states, pm.context_states):
+            for o in table.objects:
+                for i, (p, v) in reachable(o).items():
+                    inside.setdefault(i, (label(o), p, v))
+        for pname, part in parts:
+            hits = sorted(((p, inside[i]) for i, (p, v) in reachable(part).items() if i in inside), key=lambda t: len(t[0]))
+            for p, (ol, op_, _v) in hits[:1]:
+                results.append({'getter': getter, 'handle': h,
+                                'path': [f'{pname}{p} IS the object {ol}{op_} stored in the MDIB ({len(hits)} shared object(s))'],
+                                'wrote': True, 'mdib_changed': True})
+        # (b) writes through the refreshed entity
+        for pname, part in parts:
+            top = [(n,) for n, _ in part.sorted_container_properties()
+                   if n not in ('Handle', 'DescriptorHandle') and alt(getattr(part, n, None)) is not None]
+            rnd.shuffle(top)
+            paths = paths_of(part)
+            rnd.shuffle(paths)
+            for path in top[:2] + paths[:max(2, budget // 2)]:
+                before = snap_key()
+                try:
+                    wrote = apply_path(part, path)
+                except Exception:  # noqa: BLE001
+                    continue
+                results.append({'getter': getter, 'handle': h, 'path': [pname] + [str(p) for p in path], 'wrote': wrote,
+                                'mdib_changed': snap_key() != before})
+                if wrote and path[-1] == '[]':          # second in-place operation: take the probe element out again
+                    cur = part
+                    for step in path[:-1]:
+                        cur = cur[step] if isinstance(step, int) else getattr(cur, step)
+                    before = snap_key()
+                    cur.pop()
+                    results.append({'getter': getter, 'handle': h, 'path': [pname] + [str(p) for p in path[:-1]] + ['pop()'],
+                                    'wrote': True, 'mdib_changed': snap_key() != before})
+
+
 def main():
     w = World()
     pm = w.provider.mdib
@@ -319,6 +446,12 @@ def main():
         descr_results(pm, canon, results, rnd, budget)
     except Exception:  # noqa: BLE001
         results.append({'getter': 'harness(descr results)', 'handle': '', 'path': [], 'error': traceback.format_exc()[-400:]})
+
+    # entities that are older than the mdib and then refreshed
+    try:
+        stale_entity_results(pm, canon, results, rnd, budget, rng_handles)
+    except Exception:  # noqa: BLE001
+        results.append({'getter': 'harness(stale entities)', 'handle': '', 'path': [], 'error': traceback.format_exc()[-400:]})
 
     # context states
     for ch in ('p1',):
